@@ -77,13 +77,27 @@ def fieldname_full (decVal : Nat → Option Nat) : Prop :=
   ∀ t : List Nat, accepted (Model.parseFieldName t) = accepted (Spec.fieldNameSplit decVal t)
 
 /-- Same head (automatic / index / keyword), same chain of `.attr` / `[index]` accessors, same
-    rejections — for every field name without `+`, without non-ASCII decimal digits and whose
-    ASCII digit runs stay ≤ 2^63−1.  `hdec`: the digit table is right on ASCII. -/
+    rejections (empty attribute, missing `]`, text after `]`, **too many decimal digits**: an all-digit
+    head or index above 2^63−1, detected left to right as CPython does) — for every field name without
+    non-ASCII decimal digits.  `hdec`: the digit table is right on ASCII.
+    (Before 7cb5b4b the domain also excluded `+` and every digit run above 2^63−1.) -/
 theorem fieldname_eq_partial (decVal : Nat → Option Nat)
     (hdec : ∀ c, isAsciiDigit c = true → decVal c = some (c - 48))
     (t : List Nat) (h : fieldNameInDomain decVal t = true) :
     accepted (Model.parseFieldName t) = accepted (Spec.fieldNameSplit decVal t) :=
   fieldname_main decVal hdec t h
+
+/-- In particular on ASCII text (where `Py_UNICODE_TODECIMAL` is the ASCII table) the two splitters
+    agree on EVERY field name. -/
+theorem fieldname_eq_ascii (t : List Nat) (h : ∀ c ∈ t, c < 128) :
+    accepted (Model.parseFieldName t) = accepted (Spec.fieldNameSplit Spec.asciiDecVal t) := by
+  apply fieldname_main Spec.asciiDecVal
+  · intro c hc; simp [isAsciiDigit] at hc; simp [Spec.asciiDecVal, hc]
+  · simp only [fieldNameInDomain, List.all_eq_true]
+    intro c _
+    by_cases hd : 48 ≤ c ∧ c ≤ 57
+    · simp [isAsciiDigit, hd]
+    · simp [isAsciiDigit, Spec.asciiDecVal, hd]
 
 -- `0.a[12][é]` : index head, attribute, index, string index
 example : fieldNameInDomain Spec.asciiDecVal [48, 46, 97, 91, 49, 50, 93, 91, 233, 93] = true := by decide
@@ -92,28 +106,35 @@ example : accepted (Model.parseFieldName [48, 46, 97, 91, 49, 50, 93, 91, 233, 9
 example : ∀ c, isAsciiDigit c = true → Spec.asciiDecVal c = some (c - 48) := by
   intro c h; simp [isAsciiDigit] at h; simp [Spec.asciiDecVal, h]
 
-/-- `9223372036854775808` (2^63): Rust says index 2^63, CPython raises "Too many decimal digits" -/
-theorem fieldname_overflow_differs :
-    accepted (Model.parseFieldName [57, 50, 50, 51, 51, 55, 50, 48, 51, 54, 56, 53, 52, 55, 55, 53, 56, 48, 56]) =
-      some (.index 9223372036854775808, []) ∧
+/-- The former witnesses `fname-index-overflow` (repaired by 7cb5b4b): `9223372036854775808` (2^63),
+    `a[99999999999999999999]` and `99999999999999999999x` (overflow before the non-digit) are rejected by
+    both; 2^63−1 is still an index; and `+5` is a keyword for both. -/
+theorem fieldname_overflow_repaired :
+    accepted (Model.parseFieldName [57, 50, 50, 51, 51, 55, 50, 48, 51, 54, 56, 53, 52, 55, 55, 53, 56, 48, 56]) = none ∧
     accepted (Spec.fieldNameSplit Spec.asciiDecVal
-      [57, 50, 50, 51, 51, 55, 50, 48, 51, 54, 56, 53, 52, 55, 55, 53, 56, 48, 56]) = none := by decide
+      [57, 50, 50, 51, 51, 55, 50, 48, 51, 54, 56, 53, 52, 55, 55, 53, 56, 48, 56]) = none ∧
+    accepted (Model.parseFieldName [97, 91, 57, 57, 57, 57, 57, 57, 57, 57, 57, 57, 57, 57, 57, 57, 57, 57, 57, 57, 57, 57, 93]) = none ∧
+    accepted (Model.parseFieldName [57, 57, 57, 57, 57, 57, 57, 57, 57, 57, 57, 57, 57, 57, 57, 57, 57, 57, 57, 57, 120]) = none ∧
+    accepted (Spec.fieldNameSplit Spec.asciiDecVal
+      [57, 57, 57, 57, 57, 57, 57, 57, 57, 57, 57, 57, 57, 57, 57, 57, 57, 57, 57, 57, 120]) = none ∧
+    accepted (Model.parseFieldName [57, 50, 50, 51, 51, 55, 50, 48, 51, 54, 56, 53, 52, 55, 55, 53, 56, 48, 55]) =
+      some (.index 9223372036854775807, []) ∧
+    accepted (Model.parseFieldName [43, 53]) = some (.keyword [43, 53], []) ∧
+    accepted (Spec.fieldNameSplit Spec.asciiDecVal [43, 53]) = some (.keyword [43, 53], []) := by decide
 
-/-- `٣` (U+0663 ARABIC-INDIC DIGIT THREE): CPython says index 3, Rust says keyword -/
+/-- still open (`fname-unicode-digit`): `٣` (U+0663 ARABIC-INDIC DIGIT THREE): CPython says index 3,
+    Rust says keyword -/
 theorem fieldname_unicode_digit_differs :
     accepted (Model.parseFieldName [1635]) = some (.keyword [1635], []) ∧
     accepted (Spec.fieldNameSplit (fun c => if c = 1635 then some 3 else Spec.asciiDecVal c) [1635]) =
       some (.index 3, []) := by decide
 
-/-- `+5` (outside the property's alphabet, recorded for completeness): Rust says index 5 -/
-theorem fieldname_plus_differs :
-    accepted (Model.parseFieldName [43, 53]) = some (.index 5, []) ∧
-    accepted (Spec.fieldNameSplit Spec.asciiDecVal [43, 53]) = some (.keyword [43, 53], []) := by decide
-
-theorem fieldname_fails : ¬ fieldname_full Spec.asciiDecVal := by
+/-- the property as stated fails only through non-ASCII decimal digits -/
+theorem fieldname_fails :
+    ¬ fieldname_full (fun c => if c = 1635 then some 3 else Spec.asciiDecVal c) := by
   intro h
-  have h1 := h [57, 50, 50, 51, 51, 55, 50, 48, 51, 54, 56, 53, 52, 55, 55, 53, 56, 48, 56]
-  rw [fieldname_overflow_differs.1, fieldname_overflow_differs.2] at h1
+  have h1 := h [1635]
+  rw [fieldname_unicode_digit_differs.1, fieldname_unicode_digit_differs.2] at h1
   simp at h1
 
 end PV.C20
